@@ -43,6 +43,7 @@ class Variant:
     attr_order: Optional[List[str]] = None   # order of serialize/to_string items; default: serialize.. then to_string
     attr_style: str = "joined"               # joined: one #[strum(a, b)] | split: one attribute per item | trailing: #[strum(a, b,)]
     flags_last: bool = False                 # emit the bare flags (disabled/default/transparent) AFTER the key = value items
+    docs_interleave: bool = False            # first doc line, then the strum attributes, then the remaining doc lines
 
     @property
     def kind(self):
@@ -287,8 +288,12 @@ def variant_attr_items(v: Variant):
 
 def render_variant(v: Variant):
     lines = []
-    for d in v.docs:
-        lines.append("    #[doc = %s]" % rust_str(d))
+    late_docs = []
+    for k, d in enumerate(v.docs):
+        if v.docs_interleave and k > 0:
+            late_docs.append("    #[doc = %s]" % rust_str(d))
+        else:
+            lines.append("    #[doc = %s]" % rust_str(d))
     items = variant_attr_items(v)
     if items:
         if v.attr_style == "split":
@@ -302,6 +307,7 @@ def render_variant(v: Variant):
         lines.append("    #[strum(props(%s))]" % ", ".join("%s = %s" % (k, _prop_lit(val)) for k, val in g))
     for a in v.raw_attrs:
         lines.append("    " + a)
+    lines.extend(late_docs)
     body = v.ident
     if v.kind == "tuple":
         body += "(" + ", ".join(f.ty for f in v.fields) + ")"
